@@ -53,6 +53,7 @@ class ArrayUfunc(Family):
                 exp = lambda q: apply_binary("subtract", s, g.D.fn(q))
         elif kind == "ragged-ragged":
             g2 = sym_ragged(ctx, "b")
+            ctx.ghost["g2"] = g2
             b = g2.ra
             ctx.add_index(g.n - 1, 2 * (g.n - 1), 2 * (g.n - 1) + 1)   # last row: size = S(n-1) + L(n-1) on both sides
             try:
@@ -113,7 +114,12 @@ class ArrayUfunc(Family):
     def concretise(self, kind, model, ghost):
         g = ghost["g"]
         n = min(max(model_int(model, g.n), 0), 4)
-        return {"lengths": [min(max(model_int(model, g.L(z3.IntVal(r))), 0), 3) for r in range(n)]}
+        case = {"lengths": [min(max(model_int(model, g.L(z3.IntVal(r))), 0), 3) for r in range(n)]}
+        g2 = ghost.get("g2")
+        if g2 is not None:
+            n2 = min(max(model_int(model, g2.n), 0), 4)
+            case["lengths_b"] = [min(max(model_int(model, g2.L(z3.IntVal(r))), 0), 3) for r in range(n2)]
+        return case
 
     def concrete(self, case):
         from npstructures import RaggedArray
@@ -123,6 +129,18 @@ class ArrayUfunc(Family):
             rows.append(list(range(v, v + l)))
             v += l
         a = RaggedArray(rows, dtype=np.int64) if rows else RaggedArray([], dtype=np.int64)
+        if "lengths_b" in case:
+            lb = case["lengths_b"]
+            b = RaggedArray(np.arange(sum(lb), dtype=np.int64), lb)
+            try:
+                got = (a - b).tolist()
+                err = None
+            except Exception as e:
+                got, err = None, e
+            if lb != ls and err is None:
+                return {"msg": f"ragged arrays with row lengths {ls} and {lb} were combined: {got}", "sig": "not-refused:array_ufunc"}
+            if lb == ls and err is not None:
+                return {"msg": f"ragged arrays with equal row lengths {ls} refused: {err!r}", "sig": "raised:array_ufunc"}
         col = np.arange(len(ls))[:, None] * 100
         checks = [("2 - a", lambda: 2 - a, [[2 - x for x in r] for r in rows]),
                   ("a - 2", lambda: a - 2, [[x - 2 for x in r] for r in rows]),
@@ -143,3 +161,6 @@ class ArrayUfunc(Family):
         from ..bounded.common import length_vectors
         for ls in length_vectors(3, 2):
             yield {"lengths": ls}
+        for ls in length_vectors(2, 2):
+            for lb in length_vectors(2, 2):
+                yield {"lengths": ls, "lengths_b": lb}
